@@ -26,7 +26,7 @@ TRUSTED = ["Coq 8.16.1 kernel incl. vm_compute (no native_compute)",
            "banner regexes are an oracle (see C01)"]
 ASSUMPTIONS = ["oracle_ok for the banner regex answers (checked per case)"]
 TECHNIQUE = "Coq proof over the parent map (parents precede children for every config; child lists, closure and chain specifications of the derived views) + exhaustive/random vm_compute correspondence of the full family dump"
-LEVEL_TEXT = ("For every config and option set the constructor's parent map is well-founded (construct_parent_before_child: a parent always precedes its child — including banner/macro "
+LEVEL_TEXT = ("For every config and option set the constructor's parent map is well-founded (construct_wf, from construct_parent_before_child: a parent always precedes its child — including banner/macro "
               "re-parenting), child lists are exactly the ascending lines pointing to that parent (each non-root in exactly one list, once), all_children/all_parents are the "
               "descendant/ancestor sets in line order, and lineage/geneology/family_endpoint/siblings/flags are the stated compositions. Tied to the code by exhaustive + random dumps.")
 LEVEL_NOTE = ("Trusted: Coq kernel + vm_compute; hand models tied by correspondence; banner-regex oracle. all_children is proved duplicate-free and strictly ascending (all_children_nodup, all_children_strictly_ascending). Brace-syntax trees are checked through the same link model on the converted text.")
